@@ -112,7 +112,18 @@ fn comp_sequence<C: Comp>(ctx: &mut Ctx, rng: &mut Rng, base: &C) -> (bool, bool
             c.expunge_mass_fields();
             (json!("expunge_mass_fields"), Ok(()))
         } else {
-            let newm = if rng.chance(0.15) { None } else if rng.chance(0.3) && before.specific.is_some() { Some(before.rating / before.specific.unwrap()) } else { Some(rng.lrange(500.0, 50_000.0)) };
+            let newm = if rng.chance(0.15) {
+                None
+            } else if rng.chance(0.3) && before.specific.is_some() {
+                Some(before.rating / before.specific.unwrap())
+            } else if rng.chance(0.3) && before.specific.is_some() {
+                // a re-weighing: next to the derived mass, from far below to just above every tolerance in the crate
+                ctx.count("obs.component_set_mass_next_to_the_derived_mass");
+                let d = *rng.pick(&[1e-10, 1e-7, 1e-5, 1e-4, 8e-4, 3e-3]) * if rng.chance(0.5) { 1.0 } else { -1.0 };
+                Some(before.rating / before.specific.unwrap() * (1.0 + d))
+            } else {
+                Some(rng.lrange(500.0, 50_000.0))
+            };
             let eff = match rng.usize(0, 2) {
                 0 => MassSideEffect::None,
                 1 => MassSideEffect::Extensive,
@@ -227,7 +238,12 @@ fn known_pattern(v: &LocoView) -> String {
 
 fn loco_sequence(ctx: &mut Ctx, rng: &mut Rng) -> (bool, bool) {
     let kind = if rng.chance(0.5) { Kind::Conv } else { Kind::Bel };
-    let base = if kind == Kind::Conv { Locomotive::default() } else { Locomotive::default_battery_electric_loco() };
+    // a fifth of the sequences run on the shipped hybrid unit (engine, generator and battery masses)
+    let hybrid = rng.chance(0.2);
+    if hybrid {
+        ctx.count("obs.loco_sequences_on_a_hybrid_unit");
+    }
+    let base = if hybrid { Locomotive::default_hybrid_electric_loco() } else if kind == Kind::Conv { Locomotive::default() } else { Locomotive::default_battery_electric_loco() };
     // load from "file" with redundant data: mass / mu / force_max consistent or not
     let mut v = serde_json::to_value(&base).unwrap();
     let m0 = if rng.chance(0.8) { Some(rng.lrange(80e3, 250e3)) } else { None };
@@ -245,7 +261,7 @@ fn loco_sequence(ctx: &mut Ctx, rng: &mut Rng) -> (bool, bool) {
     let mut breakdown_log = json!(null);
     if breakdown {
         let complete = rng.chance(0.75);
-        let comp_total = if kind == Kind::Conv { 2 } else { 1 };
+        let comp_total = if hybrid { 3 } else if kind == Kind::Conv { 2 } else { 1 };
         let comps_set = if complete { comp_total } else { rng.usize(0, comp_total - 1) };
         let agree = rng.chance(0.7);
         let total = m0.unwrap_or_else(|| rng.lrange(80e3, 250e3));
@@ -255,7 +271,7 @@ fn loco_sequence(ctx: &mut Ctx, rng: &mut Rng) -> (bool, bool) {
         v["baseline_mass"] = json!(baseline);
         v["ballast_mass"] = json!(ballast);
         let lt = v["loco_type"].as_object_mut().unwrap().values_mut().next().unwrap();
-        let names: &[&str] = if kind == Kind::Conv { &["fc", "gen"] } else { &["res"] };
+        let names: &[&str] = if hybrid { &["fc", "gen", "res"] } else if kind == Kind::Conv { &["fc", "gen"] } else { &["res"] };
         for (i, n) in names.iter().enumerate() {
             if i < comps_set {
                 lt[*n]["mass"] = json!(comp_mass);
@@ -291,10 +307,18 @@ fn loco_sequence(ctx: &mut Ctx, rng: &mut Rng) -> (bool, bool) {
             // demanded of the locomotive's getters right after it; later locomotive-level calls are judged)
             let m = if rng.chance(0.4) { None } else { Some(uc::KG * rng.lrange(2e3, 40e3)) };
             let which = rng.usize(0, 1);
-            let r = match (kind == Kind::Conv, which) {
-                (true, 0) => l.fuel_converter_mut().map(|c| c.set_mass(m, MassSideEffect::None)),
-                (true, _) => l.generator_mut().map(|c| c.set_mass(m, MassSideEffect::None)),
-                (false, _) => l.reversible_energy_storage_mut().map(|c| c.set_mass(m, MassSideEffect::None)),
+            let r = if hybrid {
+                match rng.usize(0, 2) {
+                    0 => l.fuel_converter_mut().map(|c| c.set_mass(m, MassSideEffect::None)),
+                    1 => l.generator_mut().map(|c| c.set_mass(m, MassSideEffect::None)),
+                    _ => l.reversible_energy_storage_mut().map(|c| c.set_mass(m, MassSideEffect::None)),
+                }
+            } else {
+                match (kind == Kind::Conv, which) {
+                    (true, 0) => l.fuel_converter_mut().map(|c| c.set_mass(m, MassSideEffect::None)),
+                    (true, _) => l.generator_mut().map(|c| c.set_mass(m, MassSideEffect::None)),
+                    (false, _) => l.reversible_energy_storage_mut().map(|c| c.set_mass(m, MassSideEffect::None)),
+                }
             };
             let ok = matches!(r, Some(Ok(())));
             log.push(json!({"component_call": "set_mass", "component": if kind == Kind::Conv { if which == 0 { "fc" } else { "gen" } } else { "res" }, "mass": m.map(|x| x.value), "accepted": ok}));
